@@ -56,6 +56,43 @@ def run(pid):
     rep.cov["evaluations"] += n2
     total += len(sc2)
     rep.cov["samples"].append(sc2[0]["ops"][:14])
+    # 3. (C13) interleavings: foreground calls x commit (StoreConc.tla schedules) and freelist Put / Flush / hand-over
+    #    (a primary-GC cycle parked at each of its yield points, incl. inside ToGC between rename and reopen, while a call
+    #    supersedes a location and a commit runs); F7 + F4 on the projection of the real files when everything has finished
+    if pid == "C13":
+        import conceng
+        stops = conceng.CLIENT_STOPS + conceng.FLUSH_STOPS + conceng.PGC_STOPS
+        consts = {"Threads": '{"t1", "t2"}', "InitPresent": '{"A", "B"}', "Immutable": "FALSE", "WithFlusher": "TRUE", "AllowUpdateVsRemove": "FALSE"}
+        cs, g, nexp = vlib.gen_scenarios("MCStoreConc", "MCStoreConc", consts, edges=True, key=lambda s: s["schedule"])
+        rep.cov["transitions"] += g.states
+        # two writers of ONE key free the old location twice / never free the loser's: known finding KF-C13-same-key-writers
+        cs = [c for c in cs if not (c["prog"]["t1"]["k"] == c["prog"]["t2"]["k"] and c["prog"]["t1"]["op"] != "get" and c["prog"]["t2"]["op"] != "get")]
+        cs = rng.sample(cs, min(len(cs), 4000 if thorough else 700))
+        for c in cs:
+            c.update(stops=stops, init=["A", "B"], imm=False, proj=True, il=64, pl=64)
+        probes = []
+        for i in range(1, len(conceng.PGC_STOPS) + 1):
+            for op in ({"op": "put", "k": "A", "v": 3}, {"op": "rem", "k": "B", "v": 0}, {"op": "put", "k": "C", "v": 1}):
+                for order in (["c", "f"], ["f", "c"]):
+                    probes.append({"prog": {"c": op}, "init": ["A", "B"], "imm": False, "stops": stops, "proj": True, "il": 30, "pl": 30, "lowUse": 0,
+                                   "setup": [{"op": "put", "k": "A", "v": 2}, {"op": "flush"}, {"op": "put", "k": "B", "v": 2}],
+                                   "schedule": ["pg"] * i + [order[0]] * 12 + [order[1]] * 12 + ["pg"] * 40 + ["c"] * 12 + ["f"] * 12})
+        allc = cs + probes
+        byc = conceng.judge(rep, allc, "c13", monitors=(("FsckTrace", {"VRULES": "C13"}),))
+        total += len(allc)
+        rep.cov["concurrent_histories_projected"] = len(allc)
+        for t, rules in byc.items():
+            rep.violation("rules %s in the files after a concurrent history" % ",".join(rules), {"engine": "conc", "scenario": allc[t], "rules": rules})
+        for w in vlib.known_findings().get("findings", []):
+            if w.get("property") == pid and str(w.get("witness", "")).endswith("-conc.json"):
+                sc = json.load(open(os.path.join(vlib.VERIF, w["witness"])))["scenario"]
+                byw = conceng.judge(rep, [sc], "kf", monitors=(("FsckTrace", {"VRULES": "C13"}),))
+                if byw and set(byw[0]) <= set(w["symptom"]["rules"]):
+                    rep.known.append("%s: %s (witness %s still fails with %s)" % (w["id"], w["title"], w["witness"], ",".join(byw[0])))
+                elif byw:
+                    rep.violation("pinned witness of %s fails with an unlisted symptom %s" % (w["id"], byw[0]), {"engine": "conc", "scenario": sc, "rules": byw[0]})
+                else:
+                    vlib.log("known finding %s no longer reproduces on its witness" % w["id"])
     ws = witnesses(pid)
     if ws:
         for w in ws:
